@@ -114,6 +114,11 @@ func runRsem(c *Ctx) {
 	for s := 0; s < nScen; s++ {
 		rsemScenario(c, she, s)
 	}
+	if len(c.Props) == 0 || c.Props["C02"] || c.Props["C01"] {
+		for s := 0; s < c.pick(3, 12); s++ {
+			rsemSlowConsumer(c, s)
+		}
+	}
 }
 
 // recent rows per tokenizer, for scan-like sequences through one matcher scratch
@@ -1072,4 +1077,85 @@ func rsPad(i, n int) string {
 		fmt.Fprintf(&sb, "%x", x*0x9E3779B97F4A7C15)
 	}
 	return sb.String()[:n]
+}
+
+// rsemSlowConsumer: one block with many matching rows (more batches than the cursor buffers) and a consumer
+// that pauses in the middle of the iteration, at several points. Whatever the hand-off between the block worker
+// and the cursor does with its batch slices, every stored matching row comes back exactly once, unchanged.
+func rsemSlowConsumer(c *Ctx, scen int) {
+	ctx := context.Background()
+	cfg := bs.DefaultBloomSearchEngineConfig()
+	cfg.MaxRowGroupRows = 1 << 20
+	cfg.MaxBufferedRows = 1 << 20
+	cfg.MaxBufferedTime = time.Hour
+	cfg.RowDataCompression = []bs.CompressionType{bs.CompressionNone, bs.CompressionSnappy}[c.intn(2)]
+	cfg.MaxQueryConcurrency = 1 + c.intn(3)
+	eng, err := bs.NewBloomSearchEngine(cfg, bs.NewMemoryMetaStore(), newMemDataStore())
+	must(err)
+	eng.Start()
+	defer func() {
+		sctx, cancel := context.WithTimeout(ctx, 60*time.Second)
+		eng.Stop(sctx)
+		cancel()
+	}()
+	n := 450 + c.intn(700)
+	rows := make([]map[string]any, n)
+	for i := range rows {
+		rows[i] = map[string]any{"_id": i, "kind": "hit", "pad": rsPad(i, 6+c.intn(20))}
+	}
+	must(eng.IngestRows(ctx, rows, nil))
+	must(eng.Flush(ctx))
+	q := bs.NewQuery().Build()
+	if scen%2 == 1 {
+		q = bs.NewQuery().Token("hit").Build()
+	}
+	res, err := eng.Query(ctx, q)
+	must(err)
+	pauses := map[int]bool{1: true, 64 + c.intn(64): true, 200 + c.intn(100): true}
+	got := map[int]int{}
+	wrong := 0
+	k := 0
+	for res.Next() {
+		r := res.Row()
+		id, ok := r["_id"].(float64)
+		if !ok {
+			wrong++
+		} else {
+			got[int(id)]++
+			if want, _ := rows[int(id)]["pad"].(string); r["pad"] != want || r["kind"] != "hit" {
+				wrong++
+			}
+		}
+		k++
+		if pauses[k] {
+			time.Sleep(time.Duration(120+c.intn(120)) * time.Millisecond)
+		}
+	}
+	qerr := res.Err()
+	res.Close()
+	desc := map[string]any{"kind": "slow-consumer", "rows_in_block": n, "max_query_concurrency": cfg.MaxQueryConcurrency, "compression": string(cfg.RowDataCompression)}
+	var dup, missing []int
+	for i := 0; i < n; i++ {
+		switch {
+		case got[i] == 0:
+			missing = append(missing, i)
+		case got[i] > 1:
+			dup = append(dup, i)
+		}
+	}
+	c.count([]string{"C02", "C01"}, fmt.Sprintf("slow-consumer-%d-%d", scen, n), true, desc)
+	c.dist("e2e_slow_consumer", fmt.Sprintf("rows>=%d00", n/100))
+	if qerr != nil {
+		c.violation("c02-slow-consumer", "query over healthy stores with a pausing consumer ended with an error: "+qerr.Error(), desc)
+		return
+	}
+	if len(dup) > 0 || len(missing) > 0 || wrong > 0 {
+		if len(dup) > 8 {
+			dup = dup[:8]
+		}
+		if len(missing) > 8 {
+			missing = missing[:8]
+		}
+		c.violation("c02-slow-consumer", fmt.Sprintf("one block of %d matching rows, consumer pausing mid-iteration: rows returned more than once %v..., never returned %v..., rows with foreign content %d", n, dup, missing, wrong), desc)
+	}
 }
